@@ -1004,7 +1004,10 @@ class Engine:
     @staticmethod
     def rule(focus):
         return ('seeded random histories of gridded consistency tests (Poisson L/CL/S/M, binary S/CL, Brier; for C06 also '
-                'the two seeded catalog-based magnitude tests) on one forecast, interleaved with NOISE ops on the '
+                'the two seeded catalog-based magnitude tests) on one or two forecasts (array or forecast file; second one '
+                'with permuted cells or coarser magnitude bins) sharing observed-catalog objects (fresh, or cut down in place '
+                'from a larger summarised catalog), interleaved with OTHER ops (scalar / per-cell scale, T-test, target rates, '
+                'reads) and NOISE ops on the '
                 'process-global RNG and with override scripts that replace individual uniform / Poisson draws by legal '
                 'extreme values (0, largest double < 1, cumulative boundaries and their neighbours, zero-rate gaps, '
                 'values >= a last cumulative weight that rounds below 1) or inject them through random_numbers=; every '
